@@ -122,3 +122,14 @@ try:
     _register_class_attrs()
 except ImportError:
     pass
+
+
+# properties that rest on the proved mark algebra (their own checks list these functions as their deductive part)
+from pyvc import api as _api
+
+for _k in ("Mark.add_to_set", "Mark.remove_from_set", "Mark.is_in_set", "Mark.eq", "MarkType.is_in_set", "MarkType.remove_from_set", "MarkType.excludes", "NodeType.allows_mark_type"):
+    if "C13" not in _api.CONTRACTS[_k].props:
+        _api.CONTRACTS[_k].props.append("C13")
+for _l in ("first-ne-refl", "nodec-antitone", "decisive-at"):
+    if _l in _api.LEMMAS and "C13" not in _api.LEMMAS[_l].props:
+        _api.LEMMAS[_l].props.append("C13")
